@@ -16,7 +16,7 @@ func init() {
 		"(R14a) every place that consolidates the three kinds of variables orders them (locals >) user vars > vars > defaults, FlattenStack lets later arguments win and is called in that order, and the workflow stack wins over each task-template map; "+
 		"(R14b) inside one kind the nearer definition overrides the farther one (merge of own copy over the parent's flattening with override; Get looks at the own map first); "+
 		"(R14c) per template stage, which kinds include the role's own level matches the documented stage table (0,1: none; 2: defaults; 3: defaults+vars; 4,5: all); "+
-		"(R14d) every role kind wraps each of its three maps around the parent's corresponding map, and the environment adapter exposes the global defaults/vars/user vars in those slots. Does not decide values for every tree nor template evaluation.", runC14)
+		"(R14d) every role kind wraps each of its three maps around the parent's corresponding map, and the environment adapter exposes the global defaults/vars/user vars in those slots; (R14e) after template processing every role kind writes each of its locals (iterator variables) into its own vars unconditionally, so that they are the nearest definition for its task and descendants. Does not decide values for every tree nor template evaluation.", runC14)
 }
 
 func runC14(c *an.Ctx) {
@@ -24,6 +24,7 @@ func runC14(c *an.Ctx) {
 	r14b(c)
 	r14c(c)
 	r14d(c)
+	r14e(c)
 }
 
 // kindOf classifies a value by the variable-kind field it was flattened from.
@@ -436,5 +437,101 @@ func r14d(c *an.Ctx) {
 			}
 		})
 		c.Ob("core/workflow.NewParentAdapter|slots", fn.Pos(), ok && seen == 3, "the adapter constructor must store the defaults/vars/user-vars getters in their own slots")
+	}
+}
+
+// r14e: iterator variables (Locals) are the nearest definition of their key for the generated role: after template
+// processing every role kind must copy each of them into the role's own Vars, whatever the ancestors define.
+func r14e(c *an.Ctx) {
+	c.Rule("R14e", "ProcessTemplates of every role kind writes each Local into the role's own Vars unconditionally (directly or through a same-package helper, depth <= 2)", 4)
+	exports := func(f *ssa.Function) (found bool, cond []string) {
+		an.Instrs(f, func(in ssa.Instruction) {
+			r, ok := in.(*ssa.Range)
+			if !ok || r.Referrers() == nil {
+				return
+			}
+			if fld := an.FieldOf(r.X); fld == nil || fld.Name() != "Locals" {
+				return
+			}
+			for _, ref := range *r.Referrers() {
+				nx, ok := ref.(*ssa.Next)
+				if !ok {
+					continue
+				}
+				body := an.NaturalLoop(nx.Block())
+				var k, v ssa.Value
+				if nx.Referrers() != nil {
+					for _, e := range *nx.Referrers() {
+						if ex, ok := e.(*ssa.Extract); ok {
+							switch ex.Index {
+							case 1:
+								k = ex
+							case 2:
+								v = ex
+							}
+						}
+					}
+				}
+				for b := range body {
+					for _, bi := range b.Instrs {
+						call, ok := bi.(*ssa.Call)
+						if !ok || an.MethodName(&call.Call) != "Set" {
+							continue
+						}
+						args := an.Args(&call.Call)
+						if len(args) != 3 || args[1] != k || args[2] != v {
+							continue
+						}
+						if fld := an.FieldOf(args[0]); fld == nil || fld.Name() != "Vars" {
+							continue
+						}
+						found = true
+						for _, g := range an.Guards(b) {
+							if g.LoopHeader || g.LoopExit || !body[g.If.Block()] || g.If.Block() == nx.Block() {
+								continue
+							}
+							cond = append(cond, c.PosStr(call.Pos()))
+						}
+					}
+				}
+			}
+		})
+		return
+	}
+	for _, kind := range []string{"aggregatorRole", "includeRole", "taskRole", "callRole"} {
+		fn := c.MustFn("core/workflow", kind+".ProcessTemplates")
+		if fn == nil {
+			continue
+		}
+		c.Subject()
+		found, cond := exports(fn)
+		where := fn
+		if !found {
+			// same-package helpers, depth <= 2
+			seen := map[*ssa.Function]bool{fn: true}
+			level := []*ssa.Function{fn}
+			for d := 0; d < 2 && !found; d++ {
+				var next []*ssa.Function
+				for _, f := range level {
+					an.Instrs(f, func(in ssa.Instruction) {
+						if call, ok := in.(*ssa.Call); ok {
+							if cal := call.Call.StaticCallee(); cal != nil && cal.Pkg == fn.Pkg && !seen[cal] && cal.Blocks != nil {
+								seen[cal] = true
+								next = append(next, cal)
+							}
+						}
+					})
+				}
+				for _, f := range next {
+					if ok, cnd := exports(f); ok && !found {
+						found, cond, where = true, cnd, f
+						c.Mark(f)
+					}
+				}
+				level = next
+			}
+		}
+		c.Ob("(*core/workflow."+kind+").ProcessTemplates|locals-exported-to-own-vars", where.Pos(), found && len(cond) == 0,
+			"after template processing every Local (iterator variable) must be written into the role's own Vars, unconditionally (loop found: %v, conditional writes at %v): a Local that is skipped because an ancestor already defines the key leaves the ancestor's value visible to the role's task and descendants, although the iterator variable is the nearest definition", found, cond)
 	}
 }
